@@ -1,7 +1,7 @@
 From Coq Require Import Extraction ExtrOcamlBasic.
-From RB Require Import Base.Prelude Sig.Types Sig.Parser Wire.Value Msg.Flags Msg.Header Msg.HeaderSpec Msg.MsgSpec Msg.HeaderDecode Msg.Ops.
+From RB Require Import Base.Prelude Sig.Types Sig.Parser Wire.Value Msg.Flags Msg.Header Msg.HeaderSpec Msg.MsgSpec Msg.HeaderDecode Msg.StdMsgs Msg.Ops.
 Extraction Language OCaml.
 Set Extraction Output Directory ".".
 Extraction "gen_model.ml" parse_description to_str op_marshal op_decode op_needed op_spec_header op_flags
-  make_standard_msg std_ping std_unknown_method std_invalid_args make_response make_error_response
-  s_Hello s_ListNames s_RequestName s_ReleaseName s_AddMatch s_RemoveMatch build_call build_signal with_body.
+  op_build std_hello std_list_names std_request_name std_release_name std_add_match std_remove_match std_ping_msg
+  std_make_response std_make_error_response std_unknown_method_msg std_invalid_args_msg.
